@@ -24,6 +24,8 @@ pub use crate::keyspace::{
 pub use crate::replication::verif_hooks_distributor::{start_distributor, Distributor};
 pub use crate::replication::verif_hooks::{
     repair_members_once,
+    start_poller,
+    Poller,
     repair_peer,
     repair_peer_concurrent,
     ExchangeReport,
